@@ -14,8 +14,11 @@ for id in $ids; do
   fi
   git -C /repo apply "$ROOT/seeded/$id/patch.diff"
   for prop in $id $EXTRA; do
+    # the evidence files describe the unchanged tree: keep them out of the way of a run on a seeded tree
+    cp "evidence/$prop.json" "work/evidence.$prop.keep" 2>/dev/null
     out=$(bin/check $prop quick 2>&1)
     rc=$?
+    cp "work/evidence.$prop.keep" "evidence/$prop.json" 2>/dev/null
     nv=$(echo "$out" | grep -c '^VIOLATION')
     sig=$(echo "$out" | grep -m1 'sig=' | sed 's/.*sig=//' | cut -c1-160)
     echo "$id -> check $prop: exit=$rc violations=$nv first: $sig"
